@@ -68,6 +68,8 @@ struct Scenario<'p> {
     bystanders: usize,
     position: usize,
     seed: u64,
+    /// length of the first page list (None: random 0..=3)
+    first_list_len: Option<usize>,
 }
 
 /// Runs one scenario and checks every postcondition of the statement.
@@ -127,8 +129,12 @@ fn run_scenario(sc: &Scenario<'_>, rep: &mut Report) {
         }
         // 2. send pages (twice: the second list must replace the first)
         for round in 0..2 {
-            let n_pages = rng.usize(4);
-            rep.seen("page_list_lengths", n_pages as u64);
+            let n_pages = match (round, sc.first_list_len) {
+                (0, Some(n)) => n,
+                _ => rng.usize(4),
+            };
+            rep.seen("page_list_lengths", n_pages.min(4) as u64);
+            rep.max("longest_page_list", n_pages as f64);
             let pages = mk_pages(sc.ty, &mut rng, n_pages);
             let out = ctl::run_op(&sign, &Op::SendPages, &pages);
             steps.push(format!("send_pages({}) -> {}", n_pages, out.show()));
@@ -255,7 +261,7 @@ fn from_explored(ctx: &Ctx, ty: usize, auto: bool, rep: &mut Report) {
                 continue;
             }
             run_scenario(
-                &Scenario { prior: &node.pair.sign, prior_desc: desc.clone(), ty, addr, auto, use_if_needed, bystanders: (i + variant as usize) % 3, position: i % 3, seed: mix(ctx.seed, (i as u64) << 8 | variant) },
+                &Scenario { prior: &node.pair.sign, prior_desc: desc.clone(), ty, addr, auto, use_if_needed, bystanders: (i + variant as usize) % 3, position: i % 3, seed: mix(ctx.seed, (i as u64) << 8 | variant), first_list_len: None },
                 rep,
             );
         }
@@ -300,7 +306,7 @@ fn from_abandoned_calls(ctx: &Ctx, ty: usize, auto: bool, rep: &mut Report) {
             if use_if_needed && !if_needed_in_scope(&prior, ty) {
                 continue;
             }
-            run_scenario(&Scenario { prior: &prior, prior_desc: desc.clone(), ty, addr, auto, use_if_needed, bystanders: fail_at % 3, position: fail_at % 2, seed: mix(ctx.seed, fail_at as u64) }, rep);
+            run_scenario(&Scenario { prior: &prior, prior_desc: desc.clone(), ty, addr, auto, use_if_needed, bystanders: fail_at % 3, position: fail_at % 2, seed: mix(ctx.seed, fail_at as u64), first_list_len: None }, rep);
         }
         if all_ok {
             break; // fail_at beyond the end of the call sequence: every abandonment point has been covered
@@ -308,11 +314,28 @@ fn from_abandoned_calls(ctx: &Ctx, ty: usize, auto: bool, rep: &mut Report) {
     }
 }
 
+/// A page list so long that the transfer has more chunks than the 16-bit count on the wire can express (it wraps, on
+/// both sides): "sending any list of pages of that sign's size succeeds".
+fn long_list(ctx: &Ctx, ty: usize, auto: bool, rep: &mut Report) {
+    let addr = ADDRS[(ty + 1) % ADDRS.len()];
+    let chunks_per_page = padded_len(TYPES[ty].w, TYPES[ty].h).div_ceil(16);
+    let prior = VirtualSign::new(Address(addr), if auto { PageFlipStyle::Automatic } else { PageFlipStyle::Manual });
+    for extra in [0usize, 2] {
+        // 65535 chunks or fewer (just below the wrap) / more than 65536
+        let n = if extra == 0 { 65_535 / chunks_per_page } else { 65_536 / chunks_per_page + extra };
+        rep.count("long_page_lists");
+        rep.max("most_chunks_in_one_transfer", (n * chunks_per_page) as f64);
+        run_scenario(&Scenario { prior: &prior, prior_desc: format!("fresh sign, list of {} pages = {} chunks", n, n * chunks_per_page), ty, addr, auto, use_if_needed: false, bystanders: extra, position: 0, seed: mix(ctx.seed, (ty * 4 + extra) as u64), first_list_len: Some(n) }, rep);
+    }
+}
+
 pub fn run(ctx: &Ctx) -> Outcome {
-    let jobs: Vec<(usize, bool, bool)> = (0..TYPES.len()).flat_map(|t| [(t, false, false), (t, true, false), (t, false, true), (t, true, true)]).collect();
+    let jobs: Vec<(usize, bool, u8)> = (0..TYPES.len()).flat_map(|t| [(t, false, 0u8), (t, true, 0), (t, false, 1), (t, true, 1), (t, t % 2 == 0, 2)]).collect();
     let report = run_sharded(ctx, jobs.len(), |i, rep| {
-        let (ty, auto, abandoned) = jobs[i];
-        if abandoned {
+        let (ty, auto, kind) = jobs[i];
+        if kind == 2 {
+            long_list(ctx, ty, auto, rep);
+        } else if kind == 1 {
             from_abandoned_calls(ctx, ty, auto, rep);
         } else {
             from_explored(ctx, ty, auto, rep);
@@ -321,12 +344,13 @@ pub fn run(ctx: &Ctx) -> Outcome {
     });
     let cells = report.set_len("prior_state_x_type");
     let floors = vec![
-        floor("all jobs (11 types x 2 styles x {explored, abandoned})", report.get("jobs_done") == 44, report.get("jobs_done")),
+        floor("all jobs (11 types x 2 styles x {explored, abandoned} + 11 long lists)", report.get("jobs_done") == 55, report.get("jobs_done")),
+        floor("page lists below and above 65536 chunks for every type", report.get("long_page_lists") == 22 && report.maxs.get("most_chunks_in_one_transfer").copied().unwrap_or(0.0) > 65_536.0, report.get("long_page_lists")),
         floor("every exploration reached a fixed point", report.get("explorations_at_fixed_point") == 22, report.get("explorations_at_fixed_point")),
         floor("all 13 protocol states used as prior state", report.set_len("prior_states") == 13, report.set_len("prior_states")),
         floor("(prior state x type) cells (13 x 11)", cells == 143, cells),
         floor("both entry points and both styles", ["entry/configure", "entry/configure_if_needed", "style/automatic", "style/manual"].iter().all(|k| report.get(k) > 0), report.get("entry/configure_if_needed")),
-        floor("page lists of length 0..3", report.set_len("page_list_lengths") == 4, report.set_len("page_list_lengths")),
+        floor("page lists of length 0..3 and longer", report.set_len("page_list_lengths") == 5, report.set_len("page_list_lengths")),
         floor("configure_if_needed exercised on ready signs of the same type", report.get("if_needed_skipped_configuration") > 0, report.get("if_needed_skipped_configuration")),
         floor("abandoned-call prior states", report.get("abandoned_call_prior_states") > 100, report.get("abandoned_call_prior_states")),
     ];
